@@ -291,6 +291,8 @@ class SliceModel:
             co = single_origin(trace_operand(body, bo.data.args[0], through_calls=set()))
             if co is not None and co.kind == ao.kind and co.key()[1] == ao.key()[1] and ao.proj[-1:] == (('f', 0),) and co.proj[-1:] == (('f', 1),) and ao.proj[:-1] == co.proj[:-1]:
                 return True, 'item.0 + len_utf8(item.1) of one item'
+            if co is not None and self._pos_and_peek(body, ao, co):
+                return True, 'position() + len_utf8(peeked char): the scanner position is the index of the very character the look-ahead returned (no advance in between)'
             return False, 'len_utf8 of a different character than the one at the index'
         if op_const_int(b) == 1:
             r, w = self._ascii_at(body, a, depth)
@@ -298,6 +300,83 @@ class SliceModel:
                 return True, 'b + 1 with the character at b proved one byte wide (%s)' % w
             return False, 'index + 1 without a proof that the character at the index is one byte wide (%s)' % w
         return False, 'index + something that is not the width of the character there'
+
+    # -- `self.current() + ch.len_utf8()` with `ch` from a non-advancing look at the next character
+    def _clone_next_calls(self, g):
+        """CharIndices::next calls in g whose receiver is a *clone* of the tokenizer's char iterator"""
+        out = []
+        for c in g.live_calls:
+            if (c.rdef or '').endswith("CharIndices<'a> as std::iter::Iterator>::next") or (c.rdef or '').endswith("CharIndices<'_> as std::iter::Iterator>::next"):
+                ro = single_origin(trace_operand(g, c.args[0], through_calls=set()))
+                if ro is not None and ro.kind == 'callres' and ro.data.callee == 'std::clone::Clone::clone' and not ro.proj:
+                    src = single_origin(trace_operand(g, ro.data.args[0], through_calls=set()))
+                    if src is not None and src.kind == 'param' and src.data == 1 and src.proj[-1:] == (('f', self.chars_idx),):
+                        out.append(c)
+                    elif src is not None and src.kind == 'param' and src.data == 1 and not src.proj and self.adt['name'] in g.locals[1]['ty']:
+                        out.append(c)      # clone of the whole tokenizer
+        return out
+
+    def _is_peek(self, g):
+        if not g.locals[0]['ty'].startswith('std::option::Option<(usize, char)>'):
+            return False
+        v = self.prog.view(g, keep=lambda x: True, tag='comb')
+        cn = self._clone_next_calls(v)
+        if len(cn) != 1:
+            return False
+        os_ = trace_local(v, 0, (), through_calls=set())
+        return bool(os_) and all(o.kind == 'callres' and o.data.bb == cn[0].bb for o in os_)
+
+    def _is_position(self, g):
+        """returns the index of the next unread character: item.0 of a look at a clone of the iterator, else input.len()"""
+        if g.locals[0]['ty'] != 'usize':
+            return False
+        v = self.prog.view(g, keep=lambda x: True, tag='comb')
+        cn = {c.bb for c in self._clone_next_calls(v)}
+        os_ = trace_local(v, 0, (), through_calls=set())
+        if not os_:
+            return False
+        for o in os_:
+            if o.kind == 'callres' and o.data.bb in cn and o.proj[-1:] == (('f', 0),):
+                continue
+            if o.kind == 'callres' and (o.data.callee or '') == 'core::str::<impl str>::len' and self._is_self_field(v, o.data.args[0], self.input_idx):
+                continue
+            if o.kind == 'binop' and o.data[2]['op'].startswith('Sub'):
+                la = single_origin(trace_operand(v, o.data[2]['a'], through_calls=set()))
+                lb = single_origin(trace_operand(v, o.data[2]['b'], through_calls=set()))
+                if la is not None and la.kind == 'callres' and (la.data.callee or '') == 'core::str::<impl str>::len' and self._is_self_field(v, la.data.args[0], self.input_idx) \
+                        and lb is not None and lb.kind == 'callres' and (lb.data.callee or '') == 'core::str::<impl str>::len':
+                    so = single_origin(trace_operand(v, lb.data.args[0], through_calls=set()))
+                    if so is not None and so.kind == 'callres' and (so.data.callee or '').endswith('CharIndices::<\'a>::as_str'):
+                        continue
+            return False
+        return True
+
+    def _pos_and_peek(self, body, ao, co):
+        if ao.kind != 'callres' or co.kind != 'callres' or ao.proj or ao.data.ruid is None or co.data.ruid is None:
+            return False
+        if co.proj[-3:] != (('dc', 'Some'), ('f', 0), ('f', 1)):
+            return False
+        P, C = self.prog.by_id.get(co.data.ruid), self.prog.by_id.get(ao.data.ruid)
+        if P is None or C is None or not self._is_peek(P) or not self._is_position(C):
+            return False
+        # both on the same tokenizer
+        ra = trace_operand(body, ao.data.args[0], through_calls=set())
+        rc = trace_operand(body, co.data.args[0], through_calls=set())
+        if {(o.kind, o.key()[1], o.proj) for o in ra} != {(o.kind, o.key()[1], o.proj) for o in rc}:
+            return False
+        # no advancing call between the two reads
+        import r_term
+        tm = self.__dict__.get('_tm')
+        if tm is None:
+            tm = self._tm = r_term.TermModel(self.prog, self.roles)
+        b1, b2 = co.data.bb, ao.data.bb
+        between = body.reachable_after(b1) & ({b2} | {x for x in body.live_blocks if b2 in body.reachable_after(x)})
+        for c in body.live_calls:
+            if c.bb in between and c.bb not in (b1, b2) and (c.ruid in tm.char_adv or (c.rdef or '').endswith('as std::iter::Iterator>::next') and 'CharIndices' in (c.rdef or '')):
+                # an advance on the way: only harmless if it re-enters through the look-ahead again (loop back edge)
+                if b1 not in body.reachable_after(c.bb) or b2 in body.reachable_from(body.blocks[c.bb]['term'].get('target', c.bb), avoid={b1}):
+                    return False
+        return True
 
     def _ascii_at(self, body, a, depth):
         """the character at index `a` is ASCII: a is a parameter whose every call site passes the
@@ -312,7 +391,7 @@ class SliceModel:
             if not sites:
                 return False, 'no call sites'
             for c in sites:
-                r, w = self._site_ascii(c, c.args[ao.data - 1])
+                r, w = self._site_ascii(c, c.args[ao.data - 1], depth)
                 if not r:
                     return False, 'call site %s: %s' % (c.where(), w)
             return True, '%d call site(s) behind ASCII-only char switch edges' % len(sites)
@@ -321,9 +400,12 @@ class SliceModel:
             return False, 'item index used directly'
         return False, ao.kind
 
-    def _site_ascii(self, c, arg):
+    def _site_ascii(self, c, arg, depth=0):
         body = c.body
         io = single_origin(trace_operand(body, arg, through_calls=set()))
+        if io is not None and io.kind == 'param' and not io.proj and not body.is_closure and depth < 4:
+            # the index is handed on unchanged by a forwarding body (dispatch -> delim_token -> single_char): ask its callers
+            return self._ascii_at(body, arg, depth + 1)
         if io is None or io.kind != 'callres' or io.proj[-1:] != (('f', 0),):
             return False, 'the argument is not the index component of an item'
         ok_b, w = self.origin_b(body, io)
@@ -404,6 +486,45 @@ def rule_slice(sm):
     obs = sm.rule_invariant()
     sites = slice_sites(prog, roles)
     obs.append(floor('SLICE', 'slice-sites', len(sites), 3, 'token text is cut out of the input by slicing'))
+    first, verdicts = _judge_sites(sm, sites)
+    if any(o.status == 'violated' for o in first):
+        # second reading: the same slice sites where they end up when closures handed to combinators and private
+        # higher-order helpers (`scan_while(|t, ch| ..)`) are opened at their call sites; a site is proved when every
+        # copy of it is
+        copies = {}
+        for v in roles.token_bodies(views='ho'):
+            if not getattr(v, 'is_view', False):
+                continue
+            bo = v.j.get('block_origin') or {}
+            for c in v.live_calls:
+                if (c.rdef or '') == STR_INDEX:
+                    ok_b = bo.get(c.bb, (v.orig_id, c.bb))
+                    copies.setdefault(tuple(ok_b), []).append(c)
+        if copies:
+            vobs, vver = _judge_sites(sm, [c for cs in copies.values() for c in cs])
+            for o in first:
+                if o.status != 'violated' or 'SLICE|' not in o.key:
+                    continue
+                w = o.witness or {}
+                site = None
+                for c in sites:
+                    if c.body.name == w.get('body') and c.bb == w.get('bb'):
+                        site = c
+                if site is None:
+                    continue
+                cs = copies.get((site.body.id, site.bb), [])
+                if cs and all(vver.get((c.body.id, c.bb)) for c in cs):
+                    o.status = 'discharged'
+                    o.what = 'both bounds are char boundaries at every place this slice ends up when the closures / higher-order helpers around it are opened (%d cop%s) [second reading]' % (len(cs), 'y' if len(cs) == 1 else 'ies')
+                    verdicts[(site.body.id, site.bb)] = True
+    obs += first
+    sm.verdicts = verdicts
+    return obs
+
+
+def _judge_sites(sm, sites):
+    prog, roles = sm.prog, sm.roles
+    obs = []
     cnt = {}
     verdicts = {}
     for c in sites:
@@ -443,8 +564,7 @@ def rule_slice(sm):
         else:
             obs.append(ok('SLICE', key, 'both bounds are char boundaries (%s)' % ' | '.join(whys), c.where()))
             verdicts[(b.id, c.bb)] = True
-    sm.verdicts = verdicts
-    return obs
+    return obs, verdicts
 
 
 def vetted_bound(sm, b, c, which, op):
